@@ -176,3 +176,13 @@ C15.model_input = model_input
 
 C15.rule += (" Every case is also written to targets that accept n bytes and then fail (24 cut points, silently and with exceptions(badbit|failbit)): what "
              "arrived is a prefix of the text and the next request gives the whole text again.")
+
+
+def c15_extract():
+    from . import extract
+    return extract.extract_usage_layout()
+
+
+C15.extract = c15_extract
+C15.extra_trusted = ["translator vlib/extract.py (clang 14 JSON AST: the arguments of the format_padded calls in base::format and parser::usage -> Generated/UsageLayout.lean)"]
+C15.theorem_hint += " + model_layout_is_source"
